@@ -240,8 +240,15 @@ def check_round(ctx, case, seq, blocks_desc, rng, n_ranges=3):
     # gradient_offset adds a constant inside the waveform, trajectory_delay shifts the time axis
     if ok:
         try:
-            w4 = seq.waveforms(append_RF=True)
-            if len(w4) != 4 or any(not np.array_equal(np.asarray(w4[ch]), np.asarray(waves[ch])) for ch in range(3)):
+            try:
+                w4 = seq.waveforms(append_RF=True)
+            except Warning:
+                # back-to-back RF pulses (ring-down 0, delay 0): the 0.1-raster guard points of the RF CHANNEL overlap
+                # and the monotonicity check of that channel fires; not a statement about the gradient channels
+                w4 = None
+                ctx.count('append_RF.rf_channel_not_monotonic')
+            if w4 is not None and (len(w4) != 4 or any(not np.array_equal(np.asarray(w4[ch]), np.asarray(waves[ch]))
+                                                       for ch in range(3))):
                 ctx.fail('C08/append_RF-changes-gradients', case, {'len': len(w4)})
                 ok = False
             off = rng.choice([1000.0, -2500.5, 40000.0])
